@@ -151,6 +151,10 @@ func (e *Engine) callValue(s *State, fr *Frame, dst *ssa.Call, cc *ssa.CallCommo
 	fr.callCnt[calleeName]++
 	anchor := fmt.Sprintf("%s#%d", calleeName, e.callOrdinal(site))
 	e.applyAts(s, fr, anchor, "before", cc, args, nil, site)
+	if s.dead {
+		// "at callee#n before stop": the call itself is already outside the clauses under proof
+		return nil, true
+	}
 
 	setResult := func(v Value) {
 		if dst != nil {
@@ -279,7 +283,7 @@ func (e *Engine) callFunction(s *State, fr *Frame, dst *ssa.Call, f *ssa.Functio
 		return nil, false
 	}
 	c := e.cs.Funcs[key]
-	if c != nil && c.Flags["inline"] == "" && (len(c.Ensures) > 0 || len(c.Requires) > 0 || c.Flags["modular"] != "" || c.Flags["trusted"] != "" || f.Blocks == nil) {
+	if c != nil && c.Flags["inline"] == "" && (len(c.Ensures) > 0 || len(c.Requires) > 0 || len(c.RepInv) > 0 || c.Flags["modular"] != "" || c.Flags["trusted"] != "" || f.Blocks == nil) {
 		rv := e.modularCall(s, fr, c, key, f.Signature, args, site, anchor, f)
 		setResult(rv)
 		return nil, false
@@ -431,6 +435,7 @@ func (e *Engine) modularCall(s *State, fr *Frame, c *FuncContract, key string, s
 		s.addObligation("requires", name, r.Tag, site.Pos(), t, r.Src)
 		s.assume(t)
 	}
+	e.repInvAtCall(s, fr, c, key, env, site, anchor, f)
 	old := s.snapshot()
 	// havoc
 	w := newWriteSet()
